@@ -5,3 +5,6 @@ cd "$(dirname "$0")"
 export CARGO_NET_OFFLINE=true
 ( cd harness && cargo build --release --offline -p mc -p send_sync_probe 2>&1 | tail -2 )
 python3 tools/c18.py build
+# reference-guided rare-event search (depends only on the reference models): cache it for the seeds
+# the checks are usually run with, so that the quick tier does not pay for it
+for s in 0 1; do VERIF_SEED=$s harness/target/release/mc rare-cache quick; done
